@@ -108,6 +108,22 @@ def make_configs(r, n):
                             'delay_ms': 3, 'delay_seed': r.randint(0, 10**6)},
                      ['--strategy', st, '-j', str(j)],
                      {'strategy': st, 'jobs': j, 'n': 'comments-%s-%d' % (st, j)}))
+    # a transient fault (ENOSPC) at the n-th low-level write of the output
+    # renderer: ddSMT either stops (status 1, chain intact) or goes on - then
+    # the chain must go on from what was written
+    arith = ('(set-logic QF_LIA)\n(declare-const a Int)\n'
+             '(declare-const b Int)\n(assert (> (+ a (* 2 b)) (- b 7)))\n'
+             '(assert (< (* a a) (+ b 9)))\n(assert (= (- a 1) (+ b b)))\n'
+             '(check-sat)\n')
+    for n in (3, 6, 10, 14, 18, 27):
+        for st, j in (('ddmin', 1), ('hybrid', 2)):
+            cfgs.append((arith, {'mode': 'count',
+                                 'counts': {'assert': 3, 'check-sat': 1},
+                                 'delay_ms': 2},
+                         ['--strategy', st, '-j', str(j)],
+                         {'strategy': st, 'jobs': j,
+                          'n': 'enospc-%d-%s' % (n, st),
+                          'env': {'VERIF_FAULT': 'oserror:%d' % n}}))
     return cfgs
 
 
